@@ -28,3 +28,22 @@ package oracle
 //@   invariant true
 //@ loop #4
 //@   invariant true
+
+// ---------------------------------------------------------------------------------------------
+// C18 (the exported document holds every collection of the module's store, exported at any height - also in the middle
+// of a submission window): each field of the exported state is what the accessor of its own collection returned. The
+// validators' nonce records of the open rounds ("KeyNonce/value/") are in no field and have no exporting accessor:
+// C18.oxg.nonces names the call that would have to exist, and stands as known finding F-GEN-7.
+//@ func ExportGenesis
+//@   flag noframe
+//@   flag pure=DefaultGenesis,GetParams,GetAllPrices,GetValidatorUpdateBlock,GetIndexRecentParams,GetIndexRecentMsg,GetAllRecentMsg,GetAllRecentParams,GetAllStakerInfosAssets,GetAllStakerListAssets
+//@   ensures[C18.oxg.params]  defined(res_GetParams_0) && r0.Params == res_GetParams_0
+//@   ensures[C18.oxg.prices]  defined(res_GetAllPrices_0) && r0.PricesList == res_GetAllPrices_0
+//@   ensures[C18.oxg.msgs]    defined(res_GetAllRecentMsg_0) && r0.RecentMsgList == res_GetAllRecentMsg_0
+//@   ensures[C18.oxg.rparams] defined(res_GetAllRecentParams_0) && r0.RecentParamsList == res_GetAllRecentParams_0
+//@   ensures[C18.oxg.infos]   defined(res_GetAllStakerInfosAssets_0) && r0.StakerInfosAssets == res_GetAllStakerInfosAssets_0
+//@   ensures[C18.oxg.lists]   defined(res_GetAllStakerListAssets_0) && r0.StakerListAssets == res_GetAllStakerListAssets_0
+//@   ensures[C18.oxg.vub]     res_GetValidatorUpdateBlock_1 ==> r0.ValidatorUpdateBlock != nil && *r0.ValidatorUpdateBlock == res_GetValidatorUpdateBlock_0
+//@   ensures[C18.oxg.irp]     res_GetIndexRecentParams_1 ==> r0.IndexRecentParams != nil && *r0.IndexRecentParams == res_GetIndexRecentParams_0
+//@   ensures[C18.oxg.irm]     res_GetIndexRecentMsg_1 ==> r0.IndexRecentMsg != nil && *r0.IndexRecentMsg == res_GetIndexRecentMsg_0
+//@   ensures[C18.oxg.nonces]  defined(res_GetAllNonces_0)
